@@ -24,7 +24,7 @@ PLAN = {
     "thorough": {"shards": 16, "shard_timeout": 3600, "case_timeout": 60, "grammars": 7000, "max_case_timeouts": 80},
 }
 THRESHOLDS = {
-    "quick": {"arguments_compared": 5000, "end_of_history_compared": 3000, "step_applications": 800, "tree_nodes_snapshotted": 20000, "kind:tree": 500, "kind:ge": 300, "kind:sge": 300, "kind:dsge": 300, "kind:stack": 100, "set:step_kinds": 8, "lazy_dsge_sessions": 50, "step_cases_with_nan_or_infinite_fitness": 15, "operator_arguments_never_mapped": 100},
+    "quick": {"step_cases_whose_fitness_function_reuses_its_result_list": 5, "arguments_compared": 5000, "end_of_history_compared": 3000, "step_applications": 800, "tree_nodes_snapshotted": 20000, "kind:tree": 500, "kind:ge": 300, "kind:sge": 300, "kind:dsge": 300, "kind:stack": 100, "set:step_kinds": 8, "lazy_dsge_sessions": 50, "step_cases_with_nan_or_infinite_fitness": 15, "operator_arguments_never_mapped": 100},
     "thorough": {"arguments_compared": 100000, "end_of_history_compared": 60000, "step_applications": 15000},
 }
 
